@@ -232,3 +232,80 @@ theorem seqTensor_inverse (ts : List (ParamTransform d K)) (h : ∀ t ∈ ts, t.
   · intro x; rw [e1, e2]; exact key.2 x
 
 end Deepali
+
+namespace Deepali
+open Matrix
+variable {K : Type} [Field K] {d : Nat}
+
+/-! ### multi-level composite of linear members (repaired code: `Σ Aᵢ − (n−1)·I | Σ tᵢ`) -/
+
+theorem madd_mulVec (A B : Mat d K) (x : Vec d K) (i : Fin d) :
+    (A.add B).mulVec x i = A.mulVec x i + B.mulVec x i := by
+  simp only [Mat.mulVec, Mat.add, sumFin_eq, add_mul, Finset.sum_add_distrib]
+
+theorem toHom_apply_pt (t : H d K) (x : Vec d K) (i : Fin d) :
+    t.toHom.1.mulVec x i + t.toHom.2 i = t.apply x i := by
+  have := congrFun (toHom_apply t x) i
+  simpa only [H.apply, vadd_eq, Pi.add_apply] using this
+
+theorem hom_apply_pt (A : Mat d K) (t x : Vec d K) (i : Fin d) : (H.hom A t).apply x i = A.mulVec x i + t i := rfl
+
+theorem mlFold_apply (x : Vec d K) (rest : List (H d K)) :
+    ∀ (acc : Mat d K × Vec d K) (v : Vec d K) (n : Nat),
+      (∀ i, acc.1.mulVec x i + acc.2 i = v i + (n : K) * x i) →
+      ∀ i, (rest.foldl (fun (a : Mat d K × Vec d K) t => (a.1.add t.toHom.1, a.2.add t.toHom.2)) acc).1.mulVec x i
+            + (rest.foldl (fun (a : Mat d K × Vec d K) t => (a.1.add t.toHom.1, a.2.add t.toHom.2)) acc).2 i
+          = (rest.foldl (fun u t => u.add ((t.apply x).sub x)) v) i + ((n + rest.length : Nat) : K) * x i := by
+  induction rest with
+  | nil => intro acc v n h i; simpa using h i
+  | cons t ts ih =>
+      intro acc v n h i
+      simp only [List.foldl_cons, List.length_cons]
+      have := ih (acc.1.add t.toHom.1, acc.2.add t.toHom.2) (v.add ((t.apply x).sub x)) (n + 1) (by
+        intro i
+        simp only [madd_mulVec, Vec.add, Vec.sub]
+        have h1 := h i
+        have h2 := toHom_apply_pt t x i
+        push_cast
+        linear_combination h1 + h2) i
+      rw [this]
+      have e : n + 1 + ts.length = n + (ts.length + 1) := by omega
+      rw [e]
+
+/-- `MultiLevelTransform.tensor()` of linear members is the map `x ↦ x + Σᵢ (Tᵢ(x) − x)`. -/
+theorem mlTensor_apply (hs : List (H d K)) (x : Vec d K) :
+    (mlTensor hs).apply x
+      = x.add (hs.foldl (fun u t => u.add ((t.apply x).sub x)) (fun _ => ((0 : Nat) : K))) := by
+  cases hs with
+  | nil =>
+      funext i
+      simp [mlTensor, H.apply, one_mulVec, Vec.add]
+  | cons t0 rest =>
+      funext i
+      have key := mlFold_apply x rest t0.toHom (Vec.add (fun _ => ((0 : Nat) : K)) ((t0.apply x).sub x)) 1 (by
+        intro i
+        have := toHom_apply_pt t0 x i
+        simp only [Vec.add, Vec.sub, Nat.cast_zero, Nat.cast_one]
+        linear_combination this) i
+      simp only [List.foldl_cons, mlTensor]
+      split
+      · next he =>
+        have hl : rest.length = 0 := by simpa using he
+        rw [hl] at key
+        rw [hom_apply_pt, key]
+        simp only [Vec.add]
+        push_cast; ring
+      · have hm : Mat.mulVec (fun i j => (rest.foldl (fun (a : Mat d K × Vec d K) t =>
+              (a.1.add t.toHom.1, a.2.add t.toHom.2)) t0.toHom).1 i j
+            - ((rest.length : Nat) : K) * (Mat.one : Mat d K) i j) x i
+            = (rest.foldl (fun (a : Mat d K × Vec d K) t => (a.1.add t.toHom.1, a.2.add t.toHom.2)) t0.toHom).1.mulVec x i
+              - ((rest.length : Nat) : K) * x i := by
+          have h1 := congrFun (one_mulVec x) i
+          simp only [Mat.mulVec, sumFin_eq] at h1 ⊢
+          simp only [sub_mul, Finset.sum_sub_distrib, mul_assoc, ← Finset.mul_sum, h1]
+        rw [hom_apply_pt, hm]
+        simp only [Vec.add]
+        push_cast at key ⊢
+        linear_combination key
+
+end Deepali
